@@ -8,6 +8,10 @@ Pool A (a fixed, fully enumerated alphabet of attribute OBJECTS, no sampling):
     Contexts (all dialects registered);
   * unregistered attributes / types, each parsed in context A, again in context A, and in context B
     (allow_unregistered).
+Constructor overloads (C08-m8): FloatAttr(FloatData(v), t) against FloatAttr(v, t) and IntegerAttr(IntAttr(v), t) against
+  IntegerAttr(v, t) -- the same parameters through the two overloads the constructors declare -- for v over doubles that are
+  not representable in the narrower types, signed zeros, NaN payloads, subnormals; t over every float type and bit width:
+  the two values must be ==, hash alike and print alike (`_overloads`).
 Oracle on ALL ordered pairs of the pool (== is evaluated once per ordered pair, hash once per object):
   reflexive; symmetric; transitive (all triples - only triples with a==b and b==c can fail, those are all
   visited); a==b => hash(a)==hash(b); == and != are complementary; built twice from the same parameters =>
@@ -472,8 +476,68 @@ def _capacity(task: tuple[int, bool]) -> Stats:
     return st
 
 
+# ---- constructor overloads: the SAME parameters given as a wrapped data attribute or as a bare Python number (C08-m8)
+OVERLOAD_FLOATS = ("0x3fb999999999999a", "0x3fd5555555555555", "0x3ff0000000000001", "0x3ff0000000000000", "0x0000000000000000",
+                   "0x8000000000000000", "0x36a0000000000000", "0x380fffffffffffff", "0x47efffffffffffff", "0x40effc0000000001",
+                   "0x7ff0000000000000", "0xfff0000000000000", "0x7ff8000000000000", "0x7ff8000000000001", "0xfff8000000000000",
+                   "0x400921fb54442d18", "0xc00921fb54442d18", "0x3f50624dd2f1a9fc")
+OVERLOAD_INTS = (0, 1, -1, 127, -128, 255, 2 ** 31 - 1, -2 ** 31, 2 ** 63 - 1)
+
+
+def _overloads(task: tuple[str, int]) -> Stats:
+    """`FloatAttr(FloatData(v), t)` vs `FloatAttr(v, t)` (t a float type or a bit width) and `IntegerAttr(IntAttr(v), t)` vs
+    `IntegerAttr(v, t)`: identical parameters in the two overloads the constructors declare, so the values must be ==, hash
+    alike and print alike; v over doubles that are NOT representable in the narrower types, signed zeros, NaN payloads."""
+    import struct
+
+    from xdsl.dialects import builtin as B
+
+    kind, idx = task
+    st = Stats()
+
+    def judge(label: str, sub: str, a: Any, b: Any, wit: dict[str, Any]) -> None:
+        st.states += 2
+        st.transitions += 2
+        st.executions += 2
+        st.nontrivial += 1
+        e, rev = _eq(a, b), _eq(b, a)
+        if e is not True or rev is not True:
+            st.violate(f"C08|{label}|{sub}|same-parameters-unequal@wrapped-data-overload",
+                       f"{str(a)[:60]} (wrapped data) == {str(b)[:60]} (bare number) is {e} / reversed {rev}", wit)
+        elif _hash(a) != _hash(b):
+            st.violate(f"C08|{label}|{sub}|hash-inconsistent@wrapped-data-overload", f"{str(a)[:60]}: equal values, different hashes", wit)
+        elif str(a) != str(b):
+            st.violate(f"C08|{label}|{sub}|equal-but-print-differently@wrapped-data-overload", f"{a} vs {b}", wit)
+        st.outcomes[f"overload-checked:{label}"] += 1
+
+    if kind == "float":
+        hx = OVERLOAD_FLOATS[idx]
+        v = struct.unpack("<d", struct.pack("<Q", int(hx, 16)))[0]
+        for name, t in (("f16", B.Float16Type()), ("bf16", B.BFloat16Type()), ("f32", B.Float32Type()), ("f64", B.Float64Type()),
+                        ("16", 16), ("32", 32), ("64", 64)):
+            try:
+                a, b = B.FloatAttr(B.FloatData(v), t), B.FloatAttr(v, t)
+            except Exception as ex:   # both overloads share the range checks; a value one of them rejects is not a pair
+                st.outcomes[f"overload-rejected:{type(ex).__name__}"] += 1
+                continue
+            judge("FloatAttr", name if not name.isdigit() else f"width-{name}", a, b, {"overload": "float", "index": idx, "double_bits": hx, "type": name})
+    else:
+        v = OVERLOAD_INTS[idx]
+        for name, t in (("i8", B.IntegerType(8)), ("i32", B.IntegerType(32)), ("i64", B.IntegerType(64)), ("index", B.IndexType()),
+                        ("width-64", 64)):
+            try:
+                a, b = B.IntegerAttr(B.IntAttr(v), t), B.IntegerAttr(v, t)
+            except Exception as ex:
+                st.outcomes[f"overload-rejected:{type(ex).__name__}"] += 1
+                continue
+            judge("IntegerAttr", name, a, b, {"overload": "int", "index": idx, "value": v, "type": name})
+    return st
+
+
 def run(ctx: Any) -> None:
     tier = "quick" if ctx.quick else "thorough"
+    for _, st in pmap(_overloads, [("float", i) for i in range(len(OVERLOAD_FLOATS))] + [("int", i) for i in range(len(OVERLOAD_INTS))]):
+        ctx.merge(st)
     for _, st in pmap(_capacity, [(g, t) for g in ([g for g in GAPS if g <= 1025] if ctx.quick else GAPS + (16383, 16384, 16385)) for t in (False, True)]):
         ctx.merge(st)
     n = len(recipes(tier))
@@ -483,6 +547,7 @@ def run(ctx: Any) -> None:
         ctx.merge(st)
     ctx.bounds = {"pool_recipes": n, "built_descs_each_twice": sum(1 for r in recipes(tier) if r[0] == "build") // 2,
                   "dialect_texts_two_contexts": len(DIALECT_TEXTS), "unregistered_texts_three_parses": len(UNREGISTERED_TEXTS),
+                  "constructor_overload_pairs": {"float_values": len(OVERLOAD_FLOATS), "float_targets": 7, "int_values": len(OVERLOAD_INTS), "int_targets": 5},
                   "unregistered_reparse_after_k_other_names": [g for g in GAPS if g <= 1025] if ctx.quick else list(GAPS) + [16383, 16384, 16385],
                   "pairs": "all ordered pairs of the pool", "triples": "all triples (a,b,c) with a==b and b==c (the others cannot violate transitivity)"}
     ctx.rule = ("pool = every recipe of props/c08.recipes(tier) materialised in each worker; every ordered pair is compared with ==, !=, "
@@ -495,6 +560,8 @@ def run(ctx: Any) -> None:
 
 def replay(rep: dict[str, Any]) -> bool:
     st = Stats()
+    if "overload" in rep["witness"]:
+        return rep["signature"] not in _overloads((rep["witness"]["overload"], rep["witness"]["index"])).violations
     if "other_names_parsed_in_between" in rep["witness"]:
         w = rep["witness"]
         return rep["signature"] not in _capacity((w["other_names_parsed_in_between"], w["text"].startswith("!"))).violations
